@@ -13,6 +13,9 @@ Wrap(v) == IF "scalar" \in DOMAIN v THEN <<v.scalar>> ELSE v.list        \* a sc
 SetItem(store, k, v) == AttrSet(store, k, Wrap(v))
 RECURSIVE UpdateMany(_, _)
 UpdateMany(store, kvs) == IF kvs = <<>> THEN store ELSE UpdateMany(SetItem(store, Head(kvs)[1], Head(kvs)[2]), Tail(kvs))
+\* attributes that arrive as a plain mapping (Feature(attributes={...}) stored by an import) or as stored JSON text may hold scalars:
+\* what a Feature read from the database / built from that text shows has every scalar wrapped, keys in the same order
+Load(raw) == UpdateMany(<<>>, raw)
 DelItem(store, k) == SelectSeq(store, LAMBDA e : e[1] # k)
 
 \* what __getitem__ shows: the list, or its only item when the switch is off
